@@ -401,7 +401,9 @@ match_virtual_override(const CPPFunctionType &other) const {
     return false;
   }
 
-  if (((_flags ^ other._flags) & ~(F_override | F_final)) != 0) {
+  // An overriding function may add noexcept; that does not make it a
+  // different function.
+  if (((_flags ^ other._flags) & ~(F_override | F_final | F_noexcept)) != 0) {
     return false;
   }
 
